@@ -28,11 +28,17 @@ class FakeConn:
         out, self.rx = self.rx[:k], self.rx[k:]
         return out
 
-    def recv(self, n):
+    def recv(self, n, flags=0):
+        import socket as _s
+        if flags & _s.MSG_PEEK:
+            self.peeks = getattr(self, "peeks", 0) + 1
+            if self.peeks > 100000:
+                raise RuntimeError("recv budget exceeded (busy loop)")
+            return self.rx[:n]
         return self._take(n)
 
-    def recv_into(self, view):
-        d = self._take(len(view))
+    def recv_into(self, view, nbytes=0, flags=0):
+        d = self._take(nbytes or len(view))
         view[:len(d)] = d
         return len(d)
 
@@ -276,6 +282,64 @@ def one_case(ctx, rec, kind, pos, now, sid, names, header_len, hs_support, legs,
                 ctx.violation("blob protected online does not name the DC's current key", dict(inp, flavour=flavour), (kid.l0, kid.l1, kid.l2, kid.domain_name), (now, names[0]))
 
 
+def shared_cache_history(ctx, rec, rng):
+    """one KeyCache across three online calls (what a long-running service does): protect (the DC's current key is fetched and its seed
+    key stored), protect again naming the root key (answered from the cache), then unprotect of a blob from an EARLIER L1 interval
+    of the same L0 (covered by the stored seed key): every result must be right and both flavours must conduct the same conversation"""
+    import dpapi_ng
+    now, early = (361, 17, 13), (361, 9, 5)
+    sid, data = "S-1-5-21-1-2-3-1103", b"history"
+    now_ns = clientsim.time_ns_for(*now)
+    s = clientsim.Sim(refdc.KeyServer(now=early), real_crypto=True)
+    s.dc.add_root(rec)
+    s.now_ns = clientsim.time_ns_for(*early)
+    with s.world():
+        s.load(rec)
+        old_blob = bytes.fromhex(s.protect(b"old secret", sid, rk=rec.id)[5:])
+    inp = {"scenario": "shared cache: protect; protect naming the root key; unprotect a blob of an earlier L1 interval", "hash": rec.hash_name, "alg": rec.secret_algorithm,
+           "dc_now": now, "old_blob_position": early}
+    transcripts = {}
+    for flavour in ("sync", "async"):
+        ks = refdc.KeyServer(now=now)
+        ks.add_root(rec)
+        dc = refserver.ReferenceDC(ks, acceptor_factory=lambda: refserver.ToyAcceptor(legs=2, header_len=16, support_header_sign=True))
+        cache = dpapi_ng.KeyCache()
+        outs = []
+        with online_world(dc, 2, 16, now_ns, rng, False) as (providers, lookups), toycrypto.recording() as rlog:
+            rlog.kdf_budget = 400
+
+            def call(f, af):
+                try:
+                    return ("ok", f() if flavour == "sync" else asyncio.run(af()))
+                except Exception as e:  # noqa
+                    return ("err", canon_exc(e) + ": " + str(e)[:60])
+            outs.append(call(lambda: dpapi_ng.ncrypt_protect_secret(data, sid, server="dc01", cache=cache),
+                             lambda: dpapi_ng.async_ncrypt_protect_secret(data, sid, server="dc01", cache=cache)))
+            rlog.reset_budget()
+            outs.append(call(lambda: dpapi_ng.ncrypt_protect_secret(data, sid, root_key_identifier=rec.id, server="dc01", cache=cache),
+                             lambda: dpapi_ng.async_ncrypt_protect_secret(data, sid, root_key_identifier=rec.id, server="dc01", cache=cache)))
+            rlog.reset_budget()
+            outs.append(call(lambda: dpapi_ng.ncrypt_unprotect_secret(old_blob, server="dc01", cache=cache),
+                             lambda: dpapi_ng.async_ncrypt_unprotect_secret(old_blob, server="dc01", cache=cache)))
+        transcripts[flavour] = transcript(dc)
+        ctx.count("shared_cache_history")
+        if outs[2] != ("ok", b"old secret"):
+            ctx.violation("online unprotect does not return the plaintext", dict(inp, flavour=flavour, call="3 (unprotect)"), str(outs[2])[:100], "the plaintext")
+        for i in (0, 1):
+            if outs[i][0] != "ok":
+                ctx.violation("online protect fails", dict(inp, flavour=flavour, call=i + 1), outs[i][1], "a blob")
+                continue
+            s2 = clientsim.Sim(refdc.KeyServer(now=now), real_crypto=True)
+            s2.dc.add_root(rec)
+            with s2.world():
+                s2.load(rec)
+                back = s2.unprotect(outs[i][1])
+            if back != "done " + hx(data):
+                ctx.violation("a blob protected online does not decrypt to the plaintext", dict(inp, flavour=flavour, call=i + 1), back[:80], "done …")
+    if transcripts["sync"] != transcripts["async"]:
+        ctx.violation("sync and async APIs conduct different conversations", inp, "transcripts differ", "identical PDUs, contexts and stubs")
+
+
 def run(ctx):
     prelude.validate(ctx)
     rng = ctx.rng
@@ -313,6 +377,8 @@ def run(ctx):
                 one_case(ctx, rec, "unprotect", pos, now, sids[0], names[2], 16, True, 2 + (i + int(at_now)) % 4, False, cases, chunked=False, reply_at_now=at_now)
                 ctx.count("blob_vs_dc_clock_relation:" + ("reply positioned at the DC clock" if at_now else "reply positioned at the request"))
                 n += 1
+        for rec in fast[:2]:
+            shared_cache_history(ctx, rec, rng)
         ctx.count("online_cases", n)
     finally:
         refserver.Connection.handle = orig
@@ -401,7 +467,10 @@ def replay(ctx, payload):
     orig = patch_raw_capture()
     c2 = type(ctx)(ctx.prop, "quick", ctx.seed)
     try:
-        one_case(c2, rec, v["kind"], tuple(v["position"]), tuple(v["now"]), v["sid"], tuple(v["names"]), v["header_len"], v["header_sign"], v["legs"], v["public"], [], False, reply_at_now=v.get("reply_at_now", False))
+        if "kind" not in v:       # the shared-cache history
+            shared_cache_history(c2, rec, c2.rng)
+        else:
+            one_case(c2, rec, v["kind"], tuple(v["position"]), tuple(v["now"]), v["sid"], tuple(v["names"]), v["header_len"], v["header_sign"], v["legs"], v["public"], [], False, reply_at_now=v.get("reply_at_now", False))
     finally:
         refserver.Connection.handle = orig
     for x in c2.violations:
